@@ -469,6 +469,21 @@ def ring_design(v, thorough, deadlock_family):
                 raise Infra("the Ring specification with deviation %s is not refuted by TLC: the configuration is vacuous" % dev)
 
 
+def topics_ret_graph(v, thorough):
+    """The retained half of the topic store over its TLC-generated state graph (shared by C06 and C08): results of every
+    look-up, and every message object a look-up handed out keeps encoding to the same packet whatever is stored later."""
+    consts = dict(whos='{"i:7"}', filters="RFilters", names="RNames", maxqos=1, qosreq="{2}",
+                  payloads='{"x", "yy"}', retqos="{0, 2}", withnil="TRUE")
+    name = "topics-ret" + ("-t" if thorough else "-q")
+    r = core.cached_tlc(name, "MCTopics", TOPICS_GRAPH_CFG % consts, workers=1, timeout=1200)
+    v.tlc("topics-ret", r)
+    gpath, ns, ne = write_graph(name, r)
+    v.cov["parts"]["topics-ret:graph"] = {"states": ns, "edges": ne}
+    v.cov["distinct_nontrivial"] += ne
+    graph_walks(v, "topics", gpath, [dict(mode="paths", depth=3 if not thorough else 4), dict(mode="cover"),
+                                     dict(mode="random", walks=40, len=200, seed=core.seed())], ["-maxqos", "1"])
+
+
 def ring_edge(v, own):
     """The guards of the Ring specification at byte granularity (RingEdge): exactly enough / one byte short."""
     r = core.cached_tlc("ringedge", "RingEdge", "SPECIFICATION Spec\nCONSTANTS Size = 16384\nINVARIANTS Boundary Emit\n", workers=1, timeout=300)
@@ -833,7 +848,7 @@ def c08(tier):
                         "packets after SUBACK and live forwards compared incl. retain flag, QoS, payload bytes. Concurrent part: recorded runs in which one client "
                         "rewrites a retained topic with self-describing payloads (generation number + filler) while another subscribes in a loop, validated by TLC against "
                         "OutStreamTrace: every retained packet is one complete generation, not older than what the broker had handled when the SUBSCRIBE was sent.",
-                        extra=lambda v: fanin_validate(v, "C08", tier), frag_item=1)
+                        extra=lambda v: (topics_ret_graph(v, tier == "thorough"), fanin_validate(v, "C08", tier)), frag_item=1)
 
 
 @check("C09")
